@@ -64,14 +64,15 @@ def _block(tag, payload, pad_to8=True, padbyte=b'\x00'):
 
 
 def _safe_filler(filler, forbidden):
-    """Filler must not contain (or, joined with what follows, create an earlier occurrence of) a scanned tag."""
+    """The scanned tag must occur first exactly where the writer puts it: occurrences inside the filler are overwritten,
+    and if filler + tag would contain an earlier, straddling occurrence the filler's last byte is changed.  Partial
+    prefixes of the tag at the end of the filler (b'...stack' + b'stackshot_out_fl') are legal and kept."""
     f = bytes(filler)
     for tag in forbidden:
         while tag in f:
             f = f.replace(tag, b'\xaa' * len(tag))
-    # an occurrence straddling the filler/tag boundary is prevented by ending the filler with a non-tag byte
-    if f and f[-1] in (0x00, 0x73):
-        f = f[:-1] + b'\xab'
+        while f and (f + tag).find(tag) != len(f):
+            f = f[:-1] + bytes([(f[-1] + 0x55) & 0xff])
     return f
 
 
